@@ -38,6 +38,13 @@ def clauseNamespace (n : Nat) (b : State) (op : Op) (a : State) : Bool :=
   | .apNamespace .. => !(allNamesUnique n b) || allNamesUnique n a
   | _ => true
 
+/-- clause `names_unique_namespace_partial`: the same under `nsGuard` — this one is a theorem of
+the model (`names_unique_namespace_partial`), a failure is never a known finding -/
+def clauseNamespaceGuarded (n : Nat) (b : State) (op : Op) (a : State) : Bool :=
+  match op with
+  | .apNamespace k _ => !(allNamesUnique n b && nsGuard n b k) || allNamesUnique n a
+  | _ => true
+
 /-- clause `namespace_exact`: every parameter of the owner's list is renamed to
 `newPre ++ (name without the old prefix)`, value and constraint untouched; objects outside the
 list untouched; the lists themselves untouched; the owner's prefix is the new one -/
@@ -110,7 +117,7 @@ def lookupObjOk (h : Store) (l : List ObjId) (n : String) (out : XOut) : Bool :=
 /-- clause `lookup_exact` for the object-valued and owner-level lookups -/
 def clauseXLookup (b : State) (op : XOp) (out : XOut) : Bool :=
   match op with
-  | .at k i =>
+  | .nth k i =>
     out == (match (b.lists k)[i]? with
             | some x => .obj x
             | none => .ub)
@@ -168,6 +175,7 @@ def xcheckStep (n : Nat) (b : State) (op : XOp) (out : XOut) (fired : Option (Li
       else if !clauseOwnerFired b op o fired a then some "owner_fired_exact"
       else if !clauseDeleteAny b op o a then some "delete_indices_general"
       else if !clauseNamespaceExact n b op a then some "namespace_exact"
+      else if !clauseNamespaceGuarded n b op a then some "names_unique_namespace_partial"
       else if !clauseNamespace n b op a then some "names_unique_namespace"
       else none
   | .base _, _ => some "answer_shape"
